@@ -323,14 +323,60 @@ def check_fixtype(ctx) -> None:
         ctx.ok("C11.fixtype", fn, "_fix_type value table", f"{len(cases)} representative values: only the top-level value is converted; nested None survives")
     rt = prog.func(MOD, "_reaction_to_dict")
     _check_bounds_written(ctx, rt)
-    for mod, fname in (("cobra.io.json", "to_json"), ("cobra.io.json", "save_json_model")):
-        f = prog.func(mod, fname)
-        s2 = " ".join(ast.unparse(f.node).split())
-        n_dump = s2.count("json.dump")
-        if "allow_nan=False" in s2 or s2.count("'allow_nan': False") >= 2:
-            ctx.ok("C11.fixtype", f, "allow_nan=False", "non-finite numbers are rejected instead of written as invalid JSON")
+    _check_allow_nan(ctx)
+
+
+def _check_allow_nan(ctx) -> None:
+    """to_json / save_json_model evaluated with a recording json stand-in: the serialiser is called with
+    allow_nan=False (pretty or not), the caller's keyword arguments are passed on, the dict comes from model_to_dict."""
+    from ..absint import EvalRaise as _ER, Unknown as _U
+    from ..interp import Interp
+
+    prog = ctx.prog
+
+    class _Json:
+        def __init__(self):
+            self.calls = []
+
+        def dumps(self, obj, **kw):
+            self.calls.append(("dumps", obj, kw))
+            return "<text>"
+
+        def dump(self, obj, fp, **kw):
+            self.calls.append(("dump", obj, kw))
+
+    class _File:
+        pass
+
+    for fname, variants in (("to_json", [{}]), ("save_json_model", [{"pretty": False}, {"pretty": True}])):
+        fn = prog.func("cobra.io.json", fname)
+        bad = []
+        for kw in variants:
+            js = _Json()
+            it = Interp(prog, (_Json, _File), [], {"cobra.io.dict.model_to_dict": lambda it_, ev, c, a, k: {"reactions": [], "sort": k.get("sort")}}, globals_={"json": js})
+            it.missing_attr_raises = False
+            args = [object()] if fname == "to_json" else [object(), _File()]
+            try:
+                it.call(fn, args, dict(kw, sort=True, ensure_ascii=False))
+            except _U as exc:
+                raise AnalysisError(f"C11.fixtype: {fname} cannot be evaluated: {exc}")
+            except _ER as exc:
+                bad.append(f"{kw}: raises {exc.exc_type}")
+                continue
+            if len(js.calls) != 1:
+                bad.append(f"{kw}: {len(js.calls)} serialiser calls")
+                continue
+            _, obj, opts = js.calls[0]
+            if opts.get("allow_nan", True) is not False:
+                bad.append(f"{kw or 'default'}: the serialiser is called with allow_nan={opts.get('allow_nan', 'left at its default (True)')}: NaN/Infinity tokens produce a document other JSON readers reject")
+            if opts.get("ensure_ascii", None) is not False:
+                bad.append(f"{kw or 'default'}: the caller's keyword arguments are not passed on")
+            if not (isinstance(obj, dict) and obj.get("sort") is True and "version" in obj):
+                bad.append(f"{kw or 'default'}: the document is not model_to_dict(model, sort=sort) plus the version key")
+        if bad:
+            ctx.bad("C11.fixtype", fn, fn.node, "; ".join(bad[:2]))
         else:
-            ctx.bad("C11.fixtype", f, f.node, "JSON is written with allow_nan left on: NaN/Infinity tokens produce a document other JSON readers reject")
+            ctx.ok("C11.fixtype", fn, "allow_nan=False", "non-finite numbers are rejected instead of written as invalid JSON; caller options passed on (evaluated)")
 
 
 def check_variants(ctx) -> None:
